@@ -30,7 +30,7 @@ import TmVerif.Model.Listing
 import TmVerif.Driver.Proto
 
 namespace TmVerif.ListingCmd
-open TmVerif
+open TmVerif TmVerif.Listing
 
 def hexNat? (s : String) : Option Nat :=
   let cs := s.toList
